@@ -13,6 +13,7 @@ lemma for it no longer compiles -> tie broken):
     L1  for x in [<str literals>]: info = np.iinfo(x); if c: return x     (unrolled)
     L2  for i in range(hi, -1, -1): if c: return i                        (search)
     L3  acc = []; for s in <list expr>: ...; acc.append(e)   ...return acc (mapM)
+        (also written as  return [e for s in <list expr>])
     L4  for i in range(1, len(xs)): a = xs[i-1].f; b = xs[i].f; <checks>  (adjacent)
   numpy primitives: np.array_split(np.arange(n), k), np.iinfo(t).min/.max,
   int(np.ceil(a / b)), s[0] / s[-1] on a section.
@@ -296,6 +297,16 @@ class Fn:
         s, rest = stmts[0], stmts[1:]
         if self.skip(s):
             return self.block(rest, fallthrough)
+        if isinstance(s, ast.Return) and isinstance(s.value, ast.ListComp):
+            # return [e for x in xs]   ==   acc = []; for x in xs: acc.append(e); return acc      (L3)
+            lc = s.value
+            if len(lc.generators) != 1 or lc.generators[0].ifs or lc.generators[0].is_async:
+                raise Unsupported("comprehension shape: " + ast.unparse(s)[:80])
+            acc = "acc__"
+            loop = ast.For(target=lc.generators[0].target, iter=lc.generators[0].iter,
+                           body=[ast.Expr(value=ast.Call(func=ast.Attribute(value=ast.Name(id=acc, ctx=ast.Load()), attr="append", ctx=ast.Load()),
+                                                         args=[lc.elt], keywords=[]))], orelse=[])
+            return self.acc_loop(acc, [loop, ast.Return(value=ast.Name(id=acc, ctx=ast.Load()))])
         if isinstance(s, ast.Return):
             binds = []
             t = self.expr(s.value, binds)
